@@ -31,6 +31,7 @@ class Obl:
     def __init__(self, name, goal, nhyps, tags, line=None, kind="ensures"):
         self.name, self.goal, self.nhyps, self.tags, self.line, self.kind = name, goal, nhyps, list(tags), line, kind
         self.extra_hyps = []
+        self.uses = None      # names of the preconditions this obligation may use (None = all)
 
 
 class Path:
@@ -121,9 +122,10 @@ class Exec:
             return
         self.p.pc.append(t)
 
-    def oblige(self, name, goal, tags, line=None, kind="ensures"):
+    def oblige(self, name, goal, tags, line=None, kind="ensures", uses=None):
         goal = tobool(goal)
         o = Obl("%s#%s" % (self.qual, name), goal, len(self.p.pc), tags, line, kind)
+        o.uses = uses
         self.p.obls.append(o)
         return o
 
@@ -182,10 +184,13 @@ class Exec:
         # A16: blur_usage is None or a number >= 1
         self.assume(Or(H.CFG_BLUR_NONE, H.CFG_BLUR >= 1))
         c0 = Ctx(self.pre, self.pre, self.argvals, self_ref, con.cls)
-        self.req_names = []
+        p.req_index = {}
         for name, term in con.eval_requires(c0):
-            self.assume(term)
-            self.req_names.append(name)
+            term = tobool(term)
+            if is_true(term):
+                continue
+            p.req_index[len(p.pc)] = name
+            p.pc.append(term)
         p.n_pre = len(p.pc)
         try:
             self.exec_block(self.fdef.body, env)
@@ -211,8 +216,8 @@ class Exec:
         con = self.con
         c = Ctx(self.pre, self.st, self.argvals, self.self_ref, con.cls, result=result)
         self.frame_obligations()
-        for name, term, tags in con.eval_ensures(c):
-            self.oblige("ensures." + name, term, tags)
+        for name, term, tags, uses in con.eval_ensures(c, with_uses=True):
+            self.oblige("ensures." + name, term, tags, uses=uses)
         for exc, name, when, posts, fields, tags, iff in con.eval_raises(c):
             if iff:
                 self.oblige("raises.%s.%s.complete" % (exc, name), Not(when), tags, kind="raises")
